@@ -1,5 +1,7 @@
 import Mdns.Lemmas.Sched
 import Mdns.Lemmas.ClientTimers
+import Mdns.Lemmas.ResponderTimersIter
+import Mdns.Lemmas.ResponderTimersSpin
 import Mdns.Props.C17
 /-
   C12  The daemon wakes itself for all time-driven work and never spins.
@@ -9,6 +11,10 @@ import Mdns.Props.C17
   Second part (`section ClientModel`): the client model `Mdns/Model/Client.lean`, whose
   requested wake-up is compared with the real daemon's at every iteration of every client
   history: the invariant `TimersCover` over whole histories, for every input.
+  Third part (`section ResponderModel`): the responder model `Mdns/Model/Responder.lean`, whose
+  requested wake-up is compared with the real daemon's at every iteration of every responder
+  history: the invariant `RTimersCover` - every probe step, every queued announcement / goodbye
+  repeat and the interface check has a timer - for every input, and `responder_wake_never_late`.
 -/
 namespace Mdns.Props.C12
 
@@ -254,5 +260,320 @@ example : Due (run (init 1000 [C03.eth0])
   · decide
 
 end ClientModel
+
+/-! ### the responder model: the timers cover all time-driven work -/
+
+section ResponderModel
+open Mdns Mdns.Responder
+
+/-- **The timers cover the time-driven work of the responder.**
+    * `probes`: for EVERY probe in the registry of EVERY interface of the daemon its `next_send` -
+      the instant of its next query, or of its end once the three queries are out - is a timer.
+      This holds however the probe came to that instant: created by a registration or a
+      re-registration, started over because a record joined it (repair of D33), postponed by a
+      lost tiebreak (repair of D34), created or started over by a conflict rename /
+      `update_hostname` (repair of D41), created by the wake-up of a waiting service, moved on
+      by 250 ms by `check_probing`.
+    * `reruns`: every queued re-run - `RegisterResend` (the second announcement, one per service
+      and interface) and `UnregisterResend` (the goodbye repeat, one per interface AND family) -
+      has a timer at its due time.
+    * `ipcheck`: so has the next interface check, unless it is switched off (0).
+    * `drained`: no registry sits on `new_timers` it has not handed over to the daemon's heap
+      (what D32 was: a re-registration left them there). -/
+structure RTimersCover (s : State) : Prop where
+  probes : ∀ i ∈ s.intfs, ∀ e ∈ (s.registry i.index).probing, e.2.next ∈ s.timers
+  reruns : ∀ r ∈ s.reruns, r.next ∈ s.timers
+  ipcheck : s.nextIpCheck ≠ 0 → s.nextIpCheck ∈ s.timers
+  drained : ∀ i ∈ s.intfs, (s.registry i.index).newTimers = []
+
+theorem RTimersCover.mid {s : State} (h : RTimersCover s) : Mid 0 0 0 s :=
+  ⟨fun i hi e he => Or.inl (h.probes i hi e he), fun r hr => Or.inl (h.reruns r hr), fun hne => Or.inl (h.ipcheck hne)⟩
+
+theorem RTimersCover.of_mid {s : State} (h : Mid 0 0 0 s) (hd : Drained s) : RTimersCover s := by
+  refine ⟨?_, ?_, ?_, hd⟩
+  · intro i hi e he
+    rcases h.probes i hi e he with h1 | h1 | h1
+    · exact h1
+    · rw [hd i hi] at h1; cases h1
+    · omega
+  · intro r hr
+    rcases h.reruns r hr with h1 | h1
+    · exact h1
+    · omega
+  · intro hne
+    rcases h.ipcheck hne with h1 | h1
+    · exact h1
+    · omega
+
+/-- the fresh daemon: no probes, no re-runs, the first interface check armed 5 s after the start -/
+theorem rTimersCover_init (t0 : Nat) (intfs : List MyIntf) : RTimersCover (init t0 intfs) := by
+  have hreg : ∀ idx, (init t0 intfs).registry idx = {} := by
+    intro idx
+    unfold State.registry
+    cases hl : alookup idx (init t0 intfs).registries with
+    | none => rfl
+    | some r =>
+      have := alookup_mem hl
+      simp only [init, List.mem_map] at this
+      obtain ⟨_, _, heq⟩ := this
+      simp only [Option.getD_some]
+      exact ((Prod.mk.inj heq).2).symm
+  refine ⟨?_, ?_, ?_, ?_⟩
+  · intro i _ e he
+    rw [hreg] at he
+    cases he
+  · intro r hr
+    simp [init] at hr
+  · intro _
+    simp [init]
+  · intro i _
+    rw [hreg]
+
+/-- **RTimersCover is preserved by an iteration, for EVERY input** - any time `now` (early,
+    late, even before the last one), any jitter, any datagrams (queries, competing probes,
+    conflicting responses, in any letter case, on any interface), any commands (register,
+    re-register, unregister, monitor, interface-check interval, shutdown): unless the daemon has
+    stopped, the timers cover all pending work again afterwards.  No side condition on the state is
+    needed.  This is the statement that "the goodbye-repeat timer is pushed only with an IPv4
+    goodbye", "the tiebreak postpones without a timer" (D34), "new_timers are armed only when
+    nothing was announced" (D32) or "update_hostname moves the probe without a timer" (D41) break. -/
+theorem rTimersCover_iter (s : State) (inp : Input) (h : RTimersCover s) (hrun : (iter s inp).1.stopped = false) :
+    RTimersCover (iter s inp).1 := by
+  rcases iter_mid s inp h.mid with hst | ⟨hm, hd⟩
+  · rw [hrun] at hst; cases hst
+  · exact RTimersCover.of_mid hm hd
+
+/-- a stopped daemon stays stopped (`Exit` ends the loop) -/
+theorem stopped_iter (s : State) (inp : Input) (h : s.stopped = true) : (iter s inp).1 = s := by
+  simp [iter, h]
+
+/-- ... over whole histories -/
+theorem rTimersCover_run : ∀ (inputs : List Input) (s : State), s.stopped = true ∨ RTimersCover s →
+    (run s inputs).1.stopped = true ∨ RTimersCover (run s inputs).1
+  | [], _, h => h
+  | inp :: rest, s, h => by
+    simp only [run]
+    apply rTimersCover_run rest
+    rcases h with h | h
+    · left
+      rw [stopped_iter s inp h]
+      exact h
+    · cases hst : (iter s inp).1.stopped with
+      | true => exact Or.inl rfl
+      | false => exact Or.inr (rTimersCover_iter s inp h hst)
+
+/-- **RTimersCover holds after every history** from the start of the daemon, as long as it has
+    not been shut down -/
+theorem rTimersCover_always (t0 : Nat) (intfs : List MyIntf) (inputs : List Input)
+    (hrun : (run (init t0 intfs) inputs).1.stopped = false) : RTimersCover (run (init t0 intfs) inputs).1 := by
+  rcases rTimersCover_run inputs _ (Or.inr (rTimersCover_init t0 intfs)) with h | h
+  · rw [hrun] at h; cases h
+  · exact h
+
+/-- the instants at which the responder has time-driven work to do: a probe of an interface
+    registry sends its next query or ends (`next_send`); a queued re-run is due (second
+    announcement, goodbye repeat); the interface check -/
+def RDue (s : State) (d : Nat) : Prop :=
+  (∃ i ∈ s.intfs, ∃ e ∈ (s.registry i.index).probing, d = e.2.next) ∨
+  (∃ r ∈ s.reruns, d = r.next) ∨
+  (s.nextIpCheck ≠ 0 ∧ d = s.nextIpCheck)
+
+theorem wake_le_timer_responder (s : State) (t : Nat) (h : t ∈ s.timers) : ∃ w, wake s = some w ∧ w ≤ t := by
+  unfold wake
+  cases hm : s.timers.min? with
+  | none =>
+    rw [List.min?_eq_none_iff] at hm
+    simp [hm] at h
+  | some w => exact ⟨w, rfl, (List.min?_eq_some_iff.mp hm).2 t h⟩
+
+/-- in a state whose timers cover the work, the wake-up the daemon asks for is never later than
+    any due work -/
+theorem responder_wake_covers (s : State) (h : RTimersCover s) (d : Nat) (hd : RDue s d) : ∃ w, wake s = some w ∧ w ≤ d := by
+  apply wake_le_timer_responder
+  rcases hd with ⟨i, hi, e, he, rfl⟩ | ⟨r, hr, rfl⟩ | ⟨hne, rfl⟩
+  · exact h.probes i hi e he
+  · exact h.reruns r hr
+  · exact h.ipcheck hne
+
+/-- **responder_wake_never_late**: start the daemon, run ANY history (any times, datagrams,
+    commands); as long as it has not been shut down, the wake-up it requests afterwards is no
+    later than ANY due instant of pending responder work - the next query or the end of every
+    probe on every interface (after a registration, a re-registration, a joining record, a lost
+    tiebreak, a conflict rename, a wake-up), every second announcement, every goodbye repeat (per
+    interface and family), the interface check. -/
+theorem responder_wake_never_late (t0 : Nat) (intfs : List MyIntf) (inputs : List Input)
+    (hrun : (run (init t0 intfs) inputs).1.stopped = false) (d : Nat) (hd : RDue (run (init t0 intfs) inputs).1 d) :
+    ∃ w, wake (run (init t0 intfs) inputs).1 = some w ∧ w ≤ d :=
+  responder_wake_covers _ (rTimersCover_always t0 intfs inputs hrun) d hd
+
+/-! #### what queues the re-runs: one per interface (announcement) / per interface and family (goodbye) -/
+
+/-- GOODBYE REPEAT, PER INTERFACE AND FAMILY: `unregister` of a registered service queues, for
+    EVERY goodbye packet it sends - interface `idx`, family `v4` (IPv4 or IPv6 alike) - the same
+    packet once more for `now + 120`, and arms a timer for that instant -/
+theorem goodbye_repeat_armed (s : State) (now : Nat) (name : BList) (ch : Nat) (idx : Nat) (v4 : Bool) (p : Packet)
+    (h : Out.send idx v4 none p ∈ (execUnregister s now name ch).2) :
+    ReRun.unregisterResend (now + 120) p idx v4 ∈ (execUnregister s now name ch).1.reruns ∧
+    (now + 120) ∈ (execUnregister s now name ch).1.timers := by
+  unfold execUnregister at h ⊢
+  split
+  · rename_i hn
+    simp [hn] at h
+  · rename_i svc hs
+    simp only [hs, List.mem_append, List.mem_map, List.mem_singleton, reduceCtorEq, or_false] at h
+    obtain ⟨g, hg, heq⟩ := h
+    simp only [Out.send.injEq, true_and] at heq
+    obtain ⟨rfl, rfl, rfl⟩ := heq
+    constructor
+    · simp only [List.mem_append, List.mem_map]
+      exact Or.inr ⟨g, hg, rfl⟩
+    · simp only [List.mem_append, List.mem_map]
+      exact Or.inr ⟨g, hg, trivial⟩
+
+/-- ANNOUNCEMENT REPEAT, PER INTERFACE: when `probing_handler` announces a service on interface
+    `i` (the first announcement after its probes ended), `RegisterResend` for that service AND
+    that interface is queued for `now + 1000` and a timer is armed - for each interface on which
+    that happens, also when several probes end in one iteration -/
+theorem announcement_repeat_armed (now j : Nat) (i : MyIntf) (acc : State × List Out) (name : BList) (svc : Service)
+    (hsvc : alookup (lower name) acc.1.services = some svc) (v4 : Bool) (p : Packet)
+    (h : Out.send i.index v4 none p ∈ (wakeService now j i acc name).2) (hnew : Out.send i.index v4 none p ∉ acc.2) :
+    ReRun.registerResend (now + 1000) svc.fullname i.index ∈ (wakeService now j i acc name).1.reruns ∧
+    (now + 1000) ∈ (wakeService now j i acc name).1.timers := by
+  unfold wakeService at h ⊢
+  simp only [hsvc] at h ⊢
+  split
+  · rename_i ha
+    simp only [ha, if_true] at h
+    exact absurd h hnew
+  · rename_i ha
+    simp only [ha] at h
+    split
+    · simp
+    · rename_i hp
+      simp only [hp] at h
+      exact absurd h hnew
+
+/-! #### never spinning -/
+
+/-- **An iteration that has nothing to do goes back to sleep.**  A running daemon whose timers
+    cover its work is woken at `now` without a datagram and without a command, and no work is due
+    (every due instant lies after `now`): the iteration sends nothing and reports nothing, and
+    every timer it leaves - hence the wake-up it requests - lies after `now`.  (A spurious wake-up
+    costs one iteration; it is not answered with another request for `now`.) -/
+theorem idle_iteration_sleeps (s : State) (now j : Nat) (hrun : s.stopped = false) (hc : RTimersCover s)
+    (hnodue : ∀ d, RDue s d → now < d) :
+    (iter s (idle now j)).2 = [] ∧ ∀ t ∈ (iter s (idle now j)).1.timers, now < t := by
+  have hidle : ∀ i ∈ s.intfs, AllIdle now (s.registry i.index) :=
+    fun i hi e he => hnodue _ (Or.inl ⟨i, hi, e, he, rfl⟩)
+  have hre : ∀ r ∈ s.reruns, now < r.next := fun r hr => hnodue _ (Or.inr (Or.inl ⟨r, hr, rfl⟩))
+  refine ⟨idle_nothing_due_outs s now j hrun hidle hre, ?_⟩
+  apply idle_quiet_timers s now j hrun
+  refine ⟨hc.drained, fun i hi => (hidle i hi).noExp, hre, ?_⟩
+  by_cases h0 : s.nextIpCheck = 0
+  · exact Or.inl h0
+  · exact Or.inr (hnodue _ (Or.inr (Or.inr ⟨h0, rfl⟩)))
+
+/-- **The responder never spins.**  Take ANY state and ANY iteration at `now` (any datagrams, any
+    commands) that does not stop the daemon.  However often the daemon is then run again at the
+    same instant without new input - at least once, any jitters - every timer afterwards lies
+    after `now`: one further iteration at most has something to do at that instant (the first
+    query of a probe created with jitter 0; consuming a stale `new_timers` entry), and then the
+    requested wake-up lies in the future.  In particular the interface check never re-arms at
+    `now` (interval 0 switches it off: repair of D12), a probe never asks for its own instant
+    twice, and a re-run is never queued for `now`. -/
+theorem responder_no_spin (s : State) (inp : Input) (hrun : (iter s inp).1.stopped = false) (j : Nat) (js : List Nat) :
+    ∀ t ∈ (run (iter s inp).1 ((j :: js).map (idle inp.now))).1.timers, inp.now < t :=
+  idleRun_quiet_timers inp.now js j _ hrun (iter_quiet s inp hrun)
+
+/-- ... in terms of the requested wake-up -/
+theorem responder_no_spin_wake (s : State) (inp : Input) (hrun : (iter s inp).1.stopped = false) (j : Nat) (js : List Nat)
+    (w : Nat) (hw : wake (run (iter s inp).1 ((j :: js).map (idle inp.now))).1 = some w) : inp.now < w := by
+  unfold wake at hw
+  exact responder_no_spin s inp hrun j js w (List.min?_eq_some_iff.mp hw).1
+
+/-- what is left for the instant of an iteration (`Quiet`): only first queries of probes - no
+    probe ends, no re-run and no interface check is due, no `new_timers` wait - after ANY
+    iteration from ANY state -/
+theorem after_iteration_quiet (s : State) (inp : Input) (hrun : (iter s inp).1.stopped = false) :
+    Quiet inp.now (iter s inp).1 := iter_quiet s inp hrun
+
+/-! ### non-vacuity -/
+
+/-- the wake-up requested after each iteration of a history -/
+def wakeTrace : State → List Input → List (Option Nat)
+  | _, [] => []
+  | s, inp :: rest => wake (iter s inp).1 :: wakeTrace (iter s inp).1 rest
+
+/-- an iteration without datagram and command -/
+def idleAt (t : Nat) : Input := { now := t, jitter := 7 }
+
+/-- A REGISTRATION (`web` on `eth0`, jitter 7 ms): after `register` at 1000000 the daemon asks to
+    be woken at the three probe times 1000007, 1000257, 1000507, at the end of the probes
+    1000757 (first announcement), at 1001757 (second announcement), and then for the interface
+    check at 1005000 -/
+example :
+    wakeTrace (init 1000000 [eth0])
+      [{ now := 1000000, jitter := 7, cmds := [.register web] }, idleAt 1000007, idleAt 1000257, idleAt 1000507,
+       idleAt 1000757, idleAt 1001757] =
+    [some 1000007, some 1000257, some 1000507, some 1000757, some 1001757, some 1005000] := by decide +kernel
+
+/-- ... and the due instants are what `RDue` says: right after the registration both probes
+    (instance name, host name) are due at 1000007 -/
+example : RDue (iter (init 1000000 [eth0]) { now := 1000000, jitter := 7, cmds := [.register web] }).1 1000007 :=
+  Or.inl ⟨eth0, by decide, (web.fullname, ⟨[⟨web.fullname, none, 16, true, 4500, .txt [0]⟩,
+    ⟨web.fullname, none, 33, true, 120, .srv 0 0 80 web.host⟩], [web.fullname], 1000007, 1000007⟩), by decide +kernel, rfl⟩
+
+/-- AN UNREGISTER on a dual-stack interface (`webMixed` on `eth0dual`, announced twice, then
+    `unregister` at 1002000): the daemon asks to be woken at 1002120 for the goodbye repeats (one
+    queued per family), afterwards for the interface check -/
+example :
+    wakeTrace (init 1000000 [eth0dual])
+      [{ now := 1000000, jitter := 7, cmds := [.register webMixed] }, idleAt 1000007, idleAt 1000257, idleAt 1000507,
+       idleAt 1000757, idleAt 1001757, { now := 1002000, jitter := 7, cmds := [.unregister webMixed.fullname 5] },
+       idleAt 1002120] =
+    [some 1000007, some 1000257, some 1000507, some 1000757, some 1001757, some 1005000, some 1002120, some 1005000] := by
+  decide +kernel
+
+example :
+    ((run (init 1000000 [eth0dual])
+      [{ now := 1000000, jitter := 7, cmds := [.register webMixed] }, idleAt 1000007, idleAt 1000257, idleAt 1000507,
+       idleAt 1000757, idleAt 1001757, { now := 1002000, jitter := 7, cmds := [.unregister webMixed.fullname 5] }]).1.reruns.map
+        fun r => match r with
+          | .unregisterResend t _ i v4 => (t, i, v4)
+          | .registerResend t _ i => (t, i, true)) = [(1002120, 2, true), (1002120, 2, false)] := by decide +kernel
+
+/-- a competing prober that wins the tiebreak for both names of `web` (an SRV where we have a
+    TXT first; a higher address) -/
+def rival : RxPkt :=
+  { ifIdx := 2, sockV4 := true, src := [], srcV4 := true, srcPort := 5353,
+    msg := { id := 0, flags := 0,
+             questions := [{ name := web.fullname, ty := 255, cls := 1, flush := false },
+                           { name := web.host, ty := 255, cls := 1, flush := false }],
+             answers := [],
+             authorities := [{ name := web.fullname, ty := 33, cls := 1, flush := false, ttl := 120,
+                               rdata := .srv 0 0 80 web.host, start := 0, stop := 0 },
+                             { name := web.host, ty := 1, cls := 1, flush := false, ttl := 120,
+                               rdata := .a [192, 168, 1, 30], start := 0, stop := 0 }],
+             additionals := [] } }
+
+/-- A LOST TIEBREAK (D34): the rival's probe query arrives at 1000100, after our first query; both
+    our probes are postponed to 1001100 = arrival + 1000.  The old timer still wakes the daemon at
+    1000257 (nothing to do), then it asks for 1001100 - the retry happens when due, and the
+    three queries start over 250 ms apart -/
+example :
+    wakeTrace (init 1000000 [eth0])
+      [{ now := 1000000, jitter := 7, cmds := [.register web] }, idleAt 1000007, { now := 1000100, jitter := 7, rx := [rival] },
+       idleAt 1000257, idleAt 1001100, idleAt 1001350] =
+    [some 1000007, some 1000257, some 1000257, some 1001100, some 1001350, some 1001600] := by decide +kernel
+
+/-- JITTER 0: the probes are created for `now`, their first query leaves in the iteration of the
+    registration itself, and the daemon asks once more for `now` (the armed `new_timers` entry);
+    the next iteration at that instant has nothing to do and asks for `now + 250` -/
+example :
+    wakeTrace (init 1000000 [eth0])
+      [{ now := 1000000, jitter := 0, cmds := [.register web] }, { now := 1000000, jitter := 0 }, { now := 1000250, jitter := 0 }] =
+    [some 1000000, some 1000250, some 1000500] := by decide +kernel
+
+end ResponderModel
 
 end Mdns.Props.C12
